@@ -24,7 +24,7 @@ fn file_names() -> Vec<&'static str> {
 }
 
 /// write one module file and decide how it is mapped
-fn plan_module(r: &mut Rng, dir: &str, k: usize) -> ModPlan {
+fn plan_module(r: &mut Rng, dir: &str, k: usize, hostile: bool) -> ModPlan {
     let name = format!("m{}-{}", k, r.pick(&file_names()));
     let path = format!("{}/{}", dir, name);
     let mut spec: ElfSpec = gen_spec(r);
@@ -33,6 +33,14 @@ fn plan_module(r: &mut Rng, dir: &str, k: usize) -> ModPlan {
     }
     if r.chance(2, 3) {
         spec.has_phdrs = true;
+    }
+    if hostile && r.chance(1, 2) {
+        // a dynamic table whose DT_SONAME points at (or around) the end of the string table
+        spec.soname_at_strsz = Some(*r.pick(&[0i64, 0, -1, 1]));
+        spec.soname = Some(b"libhostile.so.1".to_vec());
+        spec.dyn_phdr = true;
+        spec.has_phdrs = true;
+        spec.bias = 0;
     }
     let kind = *r.pick(&["whole", "whole", "split", "gap", "archive", "ro-nonzero", "rw", "notelf", "empty-id"]);
     if kind == "empty-id" {
@@ -52,7 +60,7 @@ fn plan_module(r: &mut Rng, dir: &str, k: usize) -> ModPlan {
         ref_id = built.build_id.as_ref().map(|v| if v.is_empty() { "empty".to_string() } else { hex(v) }).unwrap_or("none".into());
         // (an image without program headers says nothing about where it is linked: with a non-zero bias its
         // section addresses cannot be related to the loaded bytes, so there is no reference answer from memory)
-        ref_soname = if spec.soname_twice || (spec.bias != 0 && !spec.has_phdrs) { "-".to_string() } else { built.soname.as_ref().map(|v| hex(v)).unwrap_or("none".into()) };
+        ref_soname = if spec.soname_twice || spec.soname_at_strsz.is_some() || (spec.bias != 0 && !spec.has_phdrs) { "-".to_string() } else { built.soname.as_ref().map(|v| hex(v)).unwrap_or("none".into()) };
     }
     // pad to whole pages so that every layout below is backed by the file
     let pages = ((bytes.len() + PAGE - 1) / PAGE).max(1);
@@ -90,8 +98,8 @@ fn plan_module(r: &mut Rng, dir: &str, k: usize) -> ModPlan {
     ModPlan { path, deleted, layout, ref_id, ref_soname, kind }
 }
 
-pub fn generate(seed: u64, tier: &str, out: &mut dyn std::io::Write) {
-    let n = if tier == "thorough" { 400 } else { 60 };
+pub fn generate(prop: &str, seed: u64, tier: &str, out: &mut dyn std::io::Write) {
+    let n = if tier == "thorough" { 400 } else if prop == "C08" { 60 } else { 25 };
     let root = run_dir("C08");
     for i in 0..n {
         let mut r = Rng::for_case(seed, 8, i);
@@ -99,7 +107,7 @@ pub fn generate(seed: u64, tier: &str, out: &mut dyn std::io::Write) {
         let _ = std::fs::remove_dir_all(&dir);
         std::fs::create_dir_all(&dir).unwrap();
         let nmods = r.range(1, 4) as usize;
-        let plans: Vec<ModPlan> = (0..nmods).map(|k| plan_module(&mut r, &dir, k)).collect();
+        let plans: Vec<ModPlan> = (0..nmods).map(|k| plan_module(&mut r, &dir, k, prop == "C02")).collect();
         let mut args = vec!["-t".to_string(), r.range(0, 2).to_string()];
         for p in &plans {
             args.push("-M".into());
@@ -108,7 +116,7 @@ pub fn generate(seed: u64, tier: &str, out: &mut dyn std::io::Write) {
         let t = match Target::spawn(&args) {
             Ok(t) => t,
             Err(e) => {
-                writeln!(out, "C08 l{}-{} kind=spawnfail why={}", seed, i, e.replace(' ', "_")).unwrap();
+                writeln!(out, "{} l{}-{} kind=spawnfail why={}", prop, seed, i, e.replace(' ', "_")).unwrap();
                 continue;
             }
         };
@@ -156,7 +164,7 @@ pub fn generate(seed: u64, tier: &str, out: &mut dyn std::io::Write) {
             }
         }
         let mut dest = RecDest::new(vec![], 0);
-        let o = dump_case("C08", &format!("l{}-{}", seed, i), &t, &cfg, &mut dest, &format!("refs={}{}", refs.join(";"), vdso_field));
+        let o = dump_case(prop, &format!("l{}-{}", seed, i), &t, &cfg, &mut dest, &format!("refs={}{}", refs.join(";"), vdso_field));
         writeln!(out, "{}", o.line).unwrap();
     }
 }
